@@ -169,3 +169,203 @@ Definition submit (e : env) (r : req) : outcome :=
   | inr (Some s) => match prepare_states e s with Ok a => Ran (List.length a) | Err _ => RejectedShape end
   end.
 Definition bodies (o : outcome) : nat := match o with Ran n => n | _ => 0 end.
+
+(* ======================================================================================================
+   Combiner (C02): splits_groups / combine_final_groups (only what decides `combiner_all`),
+   remove_inp_from_splitter_rpn, State.prepare_states_combined_ind. *)
+
+(* groups: field -> axis ids.  A Python int g is the one-element list [g]; Python lists here always have >= 2
+   elements, so the encoding is unambiguous. Dict in insertion order, assignment to an existing key keeps its place *)
+Definition gmap := list (nat * list nat).
+Fixpoint gset (k : nat) (v : list nat) (g : gmap) : gmap :=
+  match g with
+  | [] => [(k, v)]
+  | (k', v') :: r => if Nat.eqb k k' then (k, v) :: r else (k', v') :: gset k v r
+  end.
+Fixpoint gget (k : nat) (g : gmap) : option (list nat) :=
+  match g with [] => None | (k', v) :: r => if Nat.eqb k k' then Some v else gget k r end.
+
+Fixpoint index_of (x : nat) (l : list nat) : option nat :=
+  match l with [] => None | y :: r => if Nat.eqb x y then Some 0 else option_map S (index_of x r) end.
+
+(* a stack entry of splits_groups: a field name or the list of axes of an evaluated operand *)
+Inductive gsel := GName (f : nat) | GVal (ax : list nat).
+
+Inductive cerr := CShape | CNotReady | CStack | CKey | CSplit (x : err).
+
+(* next free axis number: group_count is None before the first use, then the last number handed out *)
+Definition gc_next (gc : option nat) : nat := match gc with None => 0 | Some n => S n end.
+
+Definition groups_binop (dot : bool) (l r : gsel) (g : gmap) (gc : option nat)
+  : cerr + (list nat * gmap * option nat) :=
+  match dot, l, r with
+  | true, GName fl, GName fr =>
+      let n := gc_next gc in inr ([n], gset fr [n] (gset fl [n] g), Some n)
+  | true, GVal al, GName fr => inr (al, gset fr al g, gc)
+  | true, GName fl, GVal ar => inr (ar, gset fl ar g, gc)
+  | true, GVal al, GVal ar =>
+      if negb (Nat.eqb (List.length al) (List.length ar)) then inl CShape
+      else
+        (* "changing axes for Right part of the scalar op.": every field whose group is an int occurring in the
+           right operand's axes gets the corresponding axis of the left operand *)
+        inr (al, map (fun kv => match snd kv with
+                                | [v] => match index_of v ar with
+                                         | Some i => (fst kv, [nth i al 0])
+                                         | None => kv
+                                         end
+                                | _ => kv
+                                end) g, gc)
+  | false, GName fl, GName fr =>
+      let n := gc_next gc in inr ([n; S n], gset fr [S n] (gset fl [n] g), Some (S n))
+  | false, GVal al, GName fr =>
+      let n := gc_next gc in inr (al ++ [n], gset fr [n] g, Some n)
+  | false, GName fl, GVal ar =>
+      let n := gc_next gc in inr ([n] ++ ar, gset fl [n] g, Some n)
+  | false, GVal al, GVal ar => inr (al ++ ar, g, gc)
+  end.
+
+Fixpoint groups_run (p : list tok) (st : list gsel) (g : gmap) (gc : option nat) : cerr + (list gsel * gmap) :=
+  match p with
+  | [] => inr (st, g)
+  | TF f :: p' => groups_run p' (GName f :: st) g gc
+  | t :: p' =>
+      match st with
+      | r :: l :: st' =>
+          match groups_binop (tok_eqb t TDot) l r g gc with
+          | inr (ax, g', gc') => groups_run p' (GVal ax :: st') g' gc'
+          | inl x => inl x
+          end
+      | _ => inl CStack
+      end
+  end.
+
+Fixpoint nat_insert (x : nat) (l : list nat) : list nat :=
+  match l with [] => [x] | y :: r => if Nat.ltb x y then x :: y :: r else if Nat.eqb x y then y :: r else y :: nat_insert x r end.
+Definition sort_set (l : list nat) : list nat := fold_right nat_insert [] l.     (* sorted(set(l)) *)
+
+Fixpoint remove_first (x : nat) (l : list nat) : list nat :=
+  match l with [] => [] | y :: r => if Nat.eqb x y then r else y :: remove_first x r end.
+
+(* combine_final_groups: combiner_all, and the "not ready to combine" check against the last groups stack *)
+Fixpoint ready_check (grs : list nat) (stack removed : list nat) : option (list nat * list nat) :=
+  match grs with
+  | [] => Some (stack, removed)
+  | gr :: r => if memb gr stack then ready_check r (remove_first gr stack) (gr :: removed)
+               else if memb gr removed then ready_check r stack removed
+               else None
+  end.
+
+Definition combiner_all_of (p : list tok) (comb : list nat) : cerr + list nat :=
+  match p with
+  | [] => inr []
+  | [TF f] => match comb with [] => inr [] | _ => if list_eqb Nat.eqb comb [f] then inr comb else inl CKey end
+  | _ =>
+      match groups_run p [] [] None with
+      | inl x => inl x
+      | inr (st, g) =>
+          match comb with
+          | [] => inr []
+          | _ =>
+              let stack := match st with GVal ax :: _ => ax | _ => [] end in
+              (* input_for_groups[gr] = the fields having gr among their axes, in dict order *)
+              let fields_of gr := map fst (filter (fun kv => memb gr (snd kv)) g) in
+              let grs := flat_map (fun c => match gget c g with Some v => v | None => [] end) comb in
+              if negb (forallb (fun c => match gget c g with Some _ => true | None => false end) comb) then inl CKey
+              else match ready_check grs stack [] with
+                   | None => inl CNotReady
+                   | Some _ => inr (sort_set (flat_map fields_of grs))
+                   end
+          end
+      end
+  end.
+
+(* remove_inp_from_splitter_rpn.  The lists stack_sgn / from_last_sign are kept with their LAST element first. *)
+Fixpoint drop_nth {A} (n : nat) (l : list A) : option (list A) :=
+  match n, l with
+  | 0, _ :: r => Some r
+  | S n', x :: r => option_map (cons x) (drop_nth n' r)
+  | _, [] => None
+  end.
+
+Fixpoint remove_loop (rv : list tok) (ii : nat) (rm : list nat) (sgn inp fls : list nat)
+  : option (list nat * list nat) :=
+  match rv with
+  | [] => Some (sgn, inp)
+  | TF f :: rv' =>
+      if negb (memb f rm) then
+        remove_loop rv' (S ii) rm sgn (ii :: inp) (match fls with [] => [] | c :: r => S c :: r end)
+      else
+        match fls with
+        | [] => remove_loop rv' (S ii) rm sgn inp fls
+        | c :: fr =>
+            if Nat.leb c 1 then remove_loop rv' (S ii) rm (tl sgn) inp fr
+            else match drop_nth (c - 1) sgn with            (* stack_sgn.pop(-c) *)
+                 | Some sgn' => remove_loop rv' (S ii) rm sgn' inp fr
+                 | None => None                              (* pop index out of range *)
+                 end
+        end
+  | _ :: rv' => remove_loop rv' (S ii) rm (ii :: sgn) inp (0 :: fls)
+  end.
+
+Fixpoint keep_positions {A} (l : list A) (ii : nat) (kept : list nat) : list A :=
+  match l with [] => [] | x :: r => if memb ii kept then x :: keep_positions r (S ii) kept else keep_positions r (S ii) kept end.
+
+Definition remove_rpn (p : list tok) (rm : list nat) : option (list tok) :=
+  match remove_loop (rev p) 0 rm [] [] [] with
+  | Some (sgn, inp) => Some (rev (keep_positions (rev p) 0 (sgn ++ inp)))
+  | None => None
+  end.
+
+(* dict lookup, later entries win: ind_map = {tuple: ind for ind, tuple in enumerate(ind_l_final)} *)
+Fixpoint lookup_last (k : idx) (l : list idx) (i : nat) (acc : option nat) : option nat :=
+  match l with [] => acc | x :: r => lookup_last k r (S i) (if list_eqb Nat.eqb k x then Some i else acc) end.
+
+Fixpoint assoc_get (k : nat) (a : assignment) : nat :=
+  match a with [] => 0 | (k', v) :: r => if Nat.eqb k k' then v else assoc_get k r end.
+
+(* for ii, st in enumerate(states_ind): mapping[ind_map[tuple(st[k] for k in keys_final)]].append(ii) *)
+Fixpoint add_at (g : nat) (ii : nat) (m : list (list nat)) : list (list nat) :=
+  match g, m with
+  | 0, x :: r => (x ++ [ii]) :: r
+  | S g', x :: r => x :: add_at g' ii r
+  | _, [] => []
+  end.
+Fixpoint fill_mapping (si : list assignment) (ii : nat) (keysf : list nat) (fin : list idx) (m : list (list nat))
+  : option (list (list nat)) :=
+  match si with
+  | [] => Some m
+  | a :: r => match lookup_last (map (fun k => assoc_get k a) keysf) fin 0 None with
+              | Some g => fill_mapping r (S ii) keysf fin (add_at g ii m)
+              | None => None                                  (* KeyError *)
+              end
+  end.
+
+(* State.prepare_states with a combiner, no previous states: Ok (states_ind, final_combined_ind_mapping as the
+   list of its values in key order) *)
+Definition prepare_combined (e : env) (s : spl) (comb : list nat) : cerr + (list assignment * list (list nat)) :=
+  match combiner_all_of (rpn s) comb with               (* set_input_groups *)
+  | inl x => inl x
+  | inr call =>
+      match prepare_states e s with                      (* prepare_states_ind: splits on the full rpn *)
+      | Err x => inl (CSplit x)
+      | Ok si =>
+          match comb with
+          | [] => inr (si, map (fun i => [i]) (seq 0 (List.length si)))
+          | _ =>
+              match remove_rpn (rpn s) call with
+              | None => inl CStack
+              | Some [] => inr (si, [seq 0 (List.length si)])
+              | Some crpn =>
+                  match splits e crpn with
+                  | Err x => inl (CSplit x)
+                  | Ok ([], _) => inr (si, [seq 0 (List.length si)])
+                  | Ok (fin, keysf) =>
+                      match fill_mapping si 0 keysf fin (map (fun _ => []) fin) with
+                      | Some m => inr (si, m)
+                      | None => inl CKey
+                      end
+                  end
+              end
+          end
+      end
+  end.
